@@ -502,10 +502,12 @@ def _producers_emit_slices(repo):
     indices (`_normalize_slice_or_index` builds slices) and notifies"""
     rel = "traits/trait_list_object.py"
     mod = repo.module(rel)
-    fn = mod.functions.get("_normalize_slice_or_index")
-    builds = fn is not None and any(
+    # some function of the module hands out a freshly built `slice(...)`
+    # (whatever the normaliser is called or split into)
+    builds = any(
         isinstance(c, ast.Call) and norm(c.func) == "slice"
-        for c in ast.walk(fn))
+        for r in ast.walk(mod.tree) if isinstance(r, ast.Return)
+        and r.value is not None for c in ast.walk(r.value))
     notifies = any(isinstance(c, ast.Call) and isinstance(c.func, ast.Attribute)
                    and c.func.attr == "notify" for c in ast.walk(mod.tree))
     return builds and notifies
